@@ -12,6 +12,7 @@ package c14
 import (
 	"encoding/xml"
 	"fmt"
+	"io"
 	"sort"
 	"strings"
 
@@ -425,6 +426,225 @@ func (c *ctx) iqDefault(ps []Pat, typ string, n xml.Name, class string) {
 	}
 }
 
+// ---- histories on one multiplexer -------------------------------------------------
+
+// hop is one step of a history: register a pattern (possibly with a nil handler), look a
+// name up through the exported lookup of the pattern's kind, or dispatch a top-level element.
+type hop struct {
+	op   byte // 'R', 'L', 'D'
+	pat  Pat  // R: the pattern; L: kind, type and queried name
+	nilH bool
+	name xml.Name // D
+}
+
+func (h hop) enc() string {
+	switch h.op {
+	case 'R':
+		if h.nilH {
+			return "R!" + h.pat.Enc()
+		}
+		return "R" + h.pat.Enc()
+	case 'L':
+		return "L" + h.pat.Enc()
+	}
+	return "D" + encName(h.name)
+}
+
+type endReader struct {
+	name xml.Name
+	done bool
+}
+
+func (e *endReader) Token() (xml.Token, error) {
+	if e.done {
+		return nil, io.EOF
+	}
+	e.done = true
+	return xml.EndElement{Name: e.name}, nil
+}
+func (e *endReader) EncodeToken(xml.Token) error                       { return nil }
+func (e *endReader) Encode(interface{}) error                          { return nil }
+func (e *endReader) EncodeElement(interface{}, xml.StartElement) error { return nil }
+
+// hist applies a history to ONE mux value (options are applied after New, as the exported
+// Option type allows) and compares every result with the model, which answers each lookup from
+// the registrations made so far.
+func (c *ctx) hist(stanzaNS string, ops []hop, class string) {
+	r := c.r
+	es := make([]string, len(ops))
+	for i, o := range ops {
+		es[i] = o.enc()
+	}
+	line := strings.Join([]string{"hist", field(stanzaNS), common.Join(es, ",")}, " ")
+	lines := []string{r.Prop + " " + line}
+	rec := &recorder{}
+	m := mux.New(stanzaNS)
+	var table []Pat
+	var obs []string
+	classify := func(n xml.Name) string {
+		h, ok := m.Handler(n)
+		if mk, isM := h.(marker); isM {
+			return "h=" + mk.pat.Enc()
+		}
+		if ok {
+			return "router"
+		}
+		return "nop"
+	}
+	for i, o := range ops {
+		var got string
+		p := common.Recover(func() {
+			switch o.op {
+			case 'R':
+				option(o.pat, rec, o.nilH)(m)
+				got = "ok"
+			case 'L':
+				switch o.pat.Kind {
+				case "t":
+					got = classify(o.pat.Name)
+				case "i":
+					h, _ := m.IQHandler(stanza.IQType(o.pat.Typ), o.pat.Name)
+					got = markerOf(h)
+				case "m":
+					h, _ := m.MessageHandler(stanza.MessageType(o.pat.Typ), o.pat.Name)
+					got = markerOf(h)
+				case "p":
+					h, _ := m.PresenceHandler(stanza.PresenceType(o.pat.Typ), o.pat.Name)
+					got = markerOf(h)
+				}
+			case 'D':
+				before := len(rec.calls)
+				st := xml.StartElement{Name: o.name}
+				_ = m.HandleXMPP(&endReader{name: o.name}, &st)
+				got = ""
+				for _, cl := range rec.calls[before:] {
+					if cl.pat.Kind == "t" {
+						got = "h=" + cl.pat.Enc()
+					}
+				}
+				if got == "" {
+					got = classify(o.name)
+					if strings.HasPrefix(got, "h=") {
+						got = "LOOKUP-SAYS-" + got + "-BUT-NOT-CALLED"
+					}
+				}
+			}
+		})
+		if p != "" {
+			got = "panic"
+		}
+		obs = append(obs, got)
+		// the specification: every answer is a function of the registrations made so far
+		switch o.op {
+		case 'R':
+			dup := false
+			for _, q := range table {
+				if q == o.pat {
+					dup = true
+				}
+			}
+			stanzaTop := o.pat.Kind == "t" && (o.pat.Name.Local == "iq" || o.pat.Name.Local == "message" || o.pat.Name.Local == "presence")
+			refuse := dup || o.nilH || stanzaTop
+			if refuse != (got == "panic") {
+				r.Fail("register-refuse", "history", lines, fmt.Sprintf("step %d (%s): got %s", i, o.enc(), got))
+			}
+			if !refuse {
+				table = append(table, o.pat)
+			}
+		case 'L', 'D':
+			kind, typ, n := o.pat.Kind, o.pat.Typ, o.pat.Name
+			if o.op == 'D' {
+				kind, typ, n = "t", "", o.name
+			}
+			want := best(table, kind, typ, n)
+			gotPat := strings.HasPrefix(got, "h=")
+			switch {
+			case want == nil && gotPat, want != nil && !gotPat:
+				r.Fail("most-specific", "history/"+kind, lines, fmt.Sprintf("step %d (%s): got %s, want %v from the registrations so far", i, o.enc(), got, want))
+			case want != nil:
+				gp, _ := decPat(strings.TrimPrefix(got, "h="))
+				if rank(gp.Name) != rank(want.Name) || gp.Kind != kind || gp.Typ != typ {
+					r.Fail("most-specific", "history/"+kind, lines, fmt.Sprintf("step %d (%s): got %s, the most specific registered match is %s", i, o.enc(), got, want.Enc()))
+				}
+			}
+		}
+	}
+	r.Line(line, common.Join(obs, ";"))
+	r.Case(line, len(table) > 0, fmt.Sprintf("%s/hist/%d", class, len(ops)))
+}
+
+func markerOf(h interface{}) string {
+	if mk, ok := h.(marker); ok {
+		return "h=" + mk.pat.Enc()
+	}
+	return "none"
+}
+
+// largeStanza builds a message / presence of roughly n tokens: many children over the name
+// universe, long text runs, deep nesting.
+func largeStanza(rnd *common.Rand, local, typ string, n int) (string, int) {
+	var sb strings.Builder
+	sb.WriteString("<" + local)
+	if typ != "" {
+		sb.WriteString(` type="` + typ + `"`)
+	}
+	sb.WriteString(">")
+	ntok := 2
+	for ntok < n {
+		l := localNames[1+rnd.Intn(2)]
+		s := spaces[1+rnd.Intn(2)]
+		switch rnd.Intn(5) {
+		case 0:
+			sb.WriteString("<" + l + ` xmlns="` + s + `"/>`)
+			ntok += 2
+		case 1:
+			sb.WriteString("<" + l + ` xmlns="` + s + `">t</` + l + ">")
+			ntok += 3
+		case 2:
+			// a deep child
+			d := 1 + rnd.Intn(12)
+			sb.WriteString("<" + l + ` xmlns="` + s + `">`)
+			for i := 0; i < d; i++ {
+				sb.WriteString("<d>")
+			}
+			sb.WriteString("x")
+			for i := 0; i < d; i++ {
+				sb.WriteString("</d>")
+			}
+			sb.WriteString("</" + l + ">")
+			ntok += 3 + 2*d
+		case 3:
+			// a long child: many grandchildren
+			k := 1 + rnd.Intn(n/4+2)
+			sb.WriteString("<" + l + ` xmlns="` + s + `">`)
+			for i := 0; i < k; i++ {
+				sb.WriteString("<g/>")
+			}
+			sb.WriteString("</" + l + ">")
+			ntok += 2 + 2*k
+		default:
+			sb.WriteString("<" + l + "/> ")
+			ntok += 3
+		}
+	}
+	sb.WriteString("</" + local + ">")
+	return sb.String(), ntok
+}
+
+func permutations(n int) [][]int {
+	if n == 0 {
+		return [][]int{nil}
+	}
+	var out [][]int
+	for _, p := range permutations(n - 1) {
+		for i := 0; i <= len(p); i++ {
+			q := append(append(append([]int(nil), p[:i]...), n-1), p[i:]...)
+			out = append(out, q)
+		}
+	}
+	return out
+}
+
 func (c *ctx) register(ps []Pat, p Pat, mode string) {
 	r := c.r
 	nilH := mode != "ok"
@@ -667,6 +887,117 @@ func Run(r *common.Run) error {
 		}
 	}
 	rnd := r.Rnd
+
+	// histories on one mux value: for every kind and every order of registering the four
+	// shapes of a name, look the name up (and dispatch it, for the top-level table) before
+	// the first and after every registration; then random histories
+	for _, kind := range []string{"t", "i", "m", "p"} {
+		typ := typesOf[kind][len(typesOf[kind])-1]
+		shp := shapes
+		if kind == "t" {
+			shp = shapes[:3]
+		}
+		for _, perm := range permutations(len(shp)) {
+			var ops []hop
+			look := func() {
+				ops = append(ops, hop{op: 'L', pat: Pat{Kind: kind, Typ: typ, Name: q}})
+				if kind == "t" {
+					ops = append(ops, hop{op: 'D', name: q})
+				}
+			}
+			look()
+			for _, i := range perm {
+				ops = append(ops, hop{op: 'R', pat: Pat{Kind: kind, Typ: typ, Name: shp[i]}})
+				look()
+			}
+			ops = append(ops, hop{op: 'R', pat: Pat{Kind: kind, Typ: typ, Name: shp[perm[0]]}})
+			look()
+			c.hist(c08.NSClient, ops, "hist-exhaustive")
+		}
+	}
+	nh := r.Pick(1500, 20000)
+	for i := 0; i < nh; i++ {
+		var ops []hop
+		kinds := []string{"t", "i", "m", "p"}
+		nops := 3 + rnd.Intn(14)
+		for k := 0; k < nops; k++ {
+			kind := kinds[rnd.Intn(4)]
+			typ := typesOf[kind][rnd.Intn(len(typesOf[kind]))]
+			if rnd.Chance(2, 3) {
+				typ = typesOf[kind][0]
+			}
+			nm := xml.Name{Space: spaces[rnd.Intn(3)], Local: localNames[rnd.Intn(3)]}
+			switch rnd.Intn(7) {
+			case 0, 1, 2:
+				ops = append(ops, hop{op: 'R', pat: Pat{Kind: kind, Typ: typ, Name: nm}, nilH: rnd.Chance(1, 12)})
+			case 3:
+				real := xml.Name{Space: spaces[1+rnd.Intn(2)], Local: localNames[1+rnd.Intn(2)]}
+				if rnd.Chance(1, 6) {
+					real = xml.Name{Space: c08.NSClient, Local: []string{"message", "iq", "presence"}[rnd.Intn(3)]}
+				}
+				ops = append(ops, hop{op: 'D', name: real})
+			default:
+				if rnd.Chance(3, 4) {
+					nm = xml.Name{Space: spaces[1+rnd.Intn(2)], Local: localNames[1+rnd.Intn(2)]}
+				}
+				ops = append(ops, hop{op: 'L', pat: Pat{Kind: kind, Typ: typ, Name: nm}})
+			}
+		}
+		sns := c08.NSClient
+		if rnd.Chance(1, 5) {
+			sns = ""
+		}
+		c.hist(sns, ops, "hist-random")
+	}
+
+	// large stanzas: token counts crossing 16 / 64 / 256 / 1024 / 4096 (thorough: 16384 and
+	// 65536), handlers for many children, a few of which read the whole stanza
+	sizes := []int{12, 20, 60, 70, 130, 250, 270, 600, 1020, 1100, 2500, 4090, 4200}
+	if !r.Quick() {
+		sizes = append(sizes, 9000, 16380, 16500, 40000, 65530, 66000, 70000)
+	}
+	for si, size := range sizes {
+		reps := r.Pick(3, 8)
+		if size > 5000 {
+			reps = 2
+		}
+		for rep := 0; rep < reps; rep++ {
+			local, kind := "message", "m"
+			if (si+rep)%3 == 2 {
+				local, kind = "presence", "p"
+			}
+			styp := typesOf[kind][rnd.Intn(len(typesOf[kind]))]
+			s, ntok := largeStanza(rnd, local, styp, size)
+			// the wildcard and a few specific patterns of the stanza's type
+			ps := []Pat{{Kind: kind, Typ: styp, Name: xml.Name{}}}
+			for _, p := range universe(kind, styp)[1:] {
+				if rnd.Chance(1, 3) {
+					ps = append(ps, p)
+				}
+			}
+			nchild := strings.Count(s, "xmlns=") + strings.Count(s, "/> ") + 2
+			cons := make([]int, nchild)
+			for k := range cons {
+				cons[k] = rnd.Intn(6)
+			}
+			// the first, the last and a few calls in between read everything (and beyond)
+			for _, k := range []int{0, nchild - 3, nchild - 2, nchild / 2, rnd.Intn(nchild), rnd.Intn(nchild)} {
+				if k >= 0 && k < nchild {
+					cons[k] = ntok + 3
+				}
+			}
+			if rep%2 == 1 {
+				// only late handlers read: the iterator alone fills the buffer before them
+				for k := range cons {
+					if k < nchild/2 {
+						cons[k] = 0
+					}
+				}
+			}
+			c.children(ps, s, cons, fmt.Sprintf("large-%d", size))
+		}
+	}
+
 	n := r.Pick(3000, 40000)
 	for i := 0; i < n; i++ {
 		local := "message"
@@ -776,6 +1107,32 @@ func (c *ctx) replay(lines []string) error {
 				return err
 			}
 			c.lookup(ps, f[2], unfield(f[3]), decName(f[4]), "replay")
+		case "hist":
+			if len(f) != 4 {
+				continue
+			}
+			var ops []hop
+			if f[3] != "-" {
+				for _, x := range strings.Split(f[3], ",") {
+					switch {
+					case strings.HasPrefix(x, "R!"):
+						p, err := decPat(x[2:])
+						if err != nil {
+							return err
+						}
+						ops = append(ops, hop{op: 'R', pat: p, nilH: true})
+					case strings.HasPrefix(x, "R"), strings.HasPrefix(x, "L"):
+						p, err := decPat(x[1:])
+						if err != nil {
+							return err
+						}
+						ops = append(ops, hop{op: x[0], pat: p})
+					case strings.HasPrefix(x, "D"):
+						ops = append(ops, hop{op: 'D', name: decName(x[1:])})
+					}
+				}
+			}
+			c.hist(unfield(f[2]), ops, "replay")
 		case "iqdefault":
 			if len(f) != 5 {
 				continue
